@@ -813,7 +813,7 @@ class MakeEvolvable(EvolvableModule):
             "extra_critic_dims": self.extra_critic_dims,
             "output_vanish": self.output_vanish,
             "init_layers": self.init_layers,
-            "has_conv_layer": self.has_conv_layers,
+            "has_conv_layers": self.has_conv_layers,
             "arch": self.arch,
             "cnn_layer_info": self.cnn_layer_info,
             "mlp_layer_info": self.mlp_layer_info,
